@@ -111,11 +111,13 @@ def classify_one(s, tx, raft):
     # (entries of the transaction's own writes may thereby be pushed out of a limited page)
     if snap and added and not (limit > 0 and len(snap) > limit) and all(x > snap[-1] for x in added + gone):
         return "F8:raft-list-phantom-append"
-    # F24 shape: nothing disappeared; every entry that is new at the commit point is a FOLDER in which the
-    # transaction itself deleted a key: its own delete hid the folder from its listing, a concurrent writer put
-    # another key into the folder, and the storage-level listing (which shows the folder before and after) verifies
+    # F24 shape: every entry that differs at the commit point (new, or gone) is a FOLDER in which the transaction
+    # itself deleted a key: the verification re-lists STORAGE at folder granularity, where the folder is present
+    # before and after, while the transaction's own view of the folder depends on WHICH keys are in it (its delete
+    # hid the folder and a concurrent writer put another key into it; or the folder was visible through a key a
+    # concurrent writer deleted while storage still holds the key the transaction deletes)
     owndel = s.get("owndel", [])
-    if not gone and added and all(x.endswith("/") and any(k.startswith(prefix + x) for k in owndel) for x in added):
+    if (added or gone) and all(x.endswith("/") and any(k.startswith(prefix + x) for k in owndel) for x in added + gone):
         return "F24:raft-list-own-delete-hides-folder"
     return "stale-list-commit"
 
@@ -366,8 +368,9 @@ class RaftTxn(TxnStream):
                          "internal/zzverif/vh/vh.go": "vh/vh.go"}}
     testname = "TestVerifC08Raft"
     rule = ("same scheduler over a real single-node RaftBackend (bbolt FSM, on-disk raft log, real apply path with the "
-            "fast-path tracker): 1-4 open transactions plus plain writers, get/put/delete/list/listPage with "
-            "slash-terminated prefixes and clean `after` values, limits -1,0,1,2,3,10; every 25th case is the directed "
+            "fast-path tracker): 1-4 open transactions plus plain writers, get/put/delete/list/listPage with prefixes with "
+            "and (20%) without trailing slash, `after` from entries, missing names and values with empty/dot segments "
+            "('.', '..', './', '//', 'a//', 'a/../b', ...), limits -1,0,1,2,3,10; every 25th case is the directed "
             "phantom scenario (list without reaching a limit, concurrent append, commit); two directed lag scenarios "
             "(FSM parked behind raft's applied index with SetFSMApplyCallback while a transaction begins)")
 
@@ -411,8 +414,7 @@ class C08(PropCheck):
                    "that read a nil-valued entry and writes can never commit - liveness only)",
                    "ASCII keys (Lean String order = Go byte order)",
                    "LRU caches modelled as unbounded maps (no eviction on the key spaces used)",
-                   "raft: single node, FSM keeps up with raft (tracker complete), prefixes '' or ending in '/' for paginated "
-                   "listings, clean `after` values"]
+                   "raft: single node, FSM keeps up with raft (tracker complete)"]
     trusted_base = ["Lean 4.33.0 kernel",
                     "models Obao/Model/{SerialTxn,InmemTxn,CacheTxn}.lean tied to sdk/physical/inmem, sdk/physical/cache.go, "
                     "sdk/logical/{logical_storage,storage_view}.go by stream 'txn-inmem'",
